@@ -4,7 +4,12 @@ import random
 INF = float("inf")
 
 
+_ODD = [None, "", 0, (), False and 0 or 1.5, frozenset(), b"", ("t",), -1, "x", 7, (0, 0), 2.5, "None", frozenset([1]), 99]
+
+
 def _label(kind, i):
+    if kind == "odd":        # "any node labels": falsy ones, None, bytes, frozensets - pairwise distinct and hashable
+        return _ODD[i] if i < len(_ODD) else ("odd", i)
     return {"str": "n%d" % i, "tuple": (i, 0)}.get(kind, i)
 
 
@@ -347,7 +352,7 @@ def gen_maxflow(rng, nmax=10):
                     arcs.append([u, v, rng.randint(1, 3), 0])           # parallel arc
     rng.shuffle(arcs)
     s, t = (0, n - 1) if layered or rng.random() < 0.6 else rng.sample(range(n), 2)
-    return {"n": n, "arcs": arcs, "s": s, "t": t, "labels": rng.choice(["int", "str", "tuple"]), "all_keys": rng.random() < 0.5}
+    return {"n": n, "arcs": arcs, "s": s, "t": t, "labels": rng.choice(["int", "str", "tuple", "odd"]), "all_keys": rng.random() < 0.5}
 
 
 def unit_layered(rng):
@@ -392,7 +397,7 @@ def gen_mincost(rng, nmax=8, general=False):
             if par and rng.random() < 0.5:
                 arcs.append([u, v, rng.randint(1, 3), cost if rng.random() < 0.4 else rng.randint(0, 6) + pi[u] - pi[v]])
     rng.shuffle(arcs)
-    case = {"n": n, "arcs": arcs[:14], "s": 0, "t": n - 1, "labels": rng.choice(["int", "str"])}
+    case = {"n": n, "arcs": arcs[:14], "s": 0, "t": n - 1, "labels": rng.choice(["int", "str", "odd"])}
     if general:
         b = [0] * n
         for _ in range(rng.randint(1, 3)):
